@@ -254,6 +254,70 @@ func vpH_C16_list_in_single() {
 	vpReach("end")
 }
 
+// every object, actor and activity type NAME of the vocabulary (written out here, not taken from the
+// library's own lists) on the holder: the embedded values with an id become their ids
+var vpC16Names = []ActivityVocabularyType{"Object", "Article", "Audio", "Document", "Event", "Image", "Note", "Page", "Place", "Profile",
+	"Relationship", "Tombstone", "Video", "Application", "Group", "Organization", "Person", "Service", "Accept", "Add", "Announce",
+	"Arrive", "Block", "Create", "Delete", "Dislike", "Flag", "Follow", "Ignore", "Invite", "Join", "Leave", "Like", "Listen", "Move", "Offer",
+	"Question", "Reject", "Read", "Remove", "TentativeReject", "TentativeAccept", "Travel", "Undo", "Update", "View", "Activity", "IntransitiveActivity", "Actor", ""}
+
+func vpH_C16_every_name() {
+	tn := vpC16Names[vpChoice(len(vpC16Names))]
+	var x Item
+	switch tn {
+	case "Place":
+		x = &Place{}
+	case "Profile":
+		x = &Profile{}
+	case "Relationship":
+		x = &Relationship{}
+	case "Tombstone":
+		x = &Tombstone{}
+	case "Application", "Group", "Organization", "Person", "Service", "Actor":
+		x = &Actor{}
+	case "Question":
+		x = &Question{}
+	case "Arrive", "Travel", "IntransitiveActivity":
+		x = &IntransitiveActivity{}
+	case "":
+		x = &Object{}
+	default:
+		if vpC16IsActivityName(tn) {
+			x = &Activity{}
+		} else {
+			x = &Object{}
+		}
+	}
+	emb := &Object{ID: "https://h.ex/emb", Type: NoteType, Name: NaturalLanguageValues{{Ref: NilLangRef, Value: Content("n")}}}
+	who := &Actor{ID: "https://h.ex/who", Type: PersonType}
+	_ = OnObject(x, func(o *Object) error {
+		o.ID, o.Type = "https://h.ex/i", tn
+		o.AttributedTo = emb
+		o.Replies = &Object{ID: "https://h.ex/r", Type: NoteType}
+		o.To = ItemCollection{who, IRI("https://h.ex/other")}
+		o.CC = ItemCollection{who}
+		return nil
+	})
+	res := FlattenProperties(x)
+	vpAssert("every-name/returns-same-value/"+string(tn), res == x)
+	_ = OnObject(x, func(o *Object) error {
+		vpAssert("every-name/attributedTo-became-id/"+string(tn), o.AttributedTo != nil && IsIRI(o.AttributedTo) && o.AttributedTo.GetLink() == "https://h.ex/emb")
+		vpAssert("every-name/replies-became-id/"+string(tn), o.Replies != nil && IsIRI(o.Replies) && o.Replies.GetLink() == "https://h.ex/r")
+		vpAssert("every-name/addressee-became-id/"+string(tn), len(o.To) == 2 && IsIRI(o.To[0]) && o.To[0].GetLink() == "https://h.ex/who" && IsIRI(o.To[1]))
+		return nil
+	})
+	vpReach("end")
+}
+
+func vpC16IsActivityName(tn ActivityVocabularyType) bool {
+	for i, n := range vpC16Names {
+		if n == tn {
+			return i >= 18 && n != "Actor" && n != ""
+		}
+	}
+	return false
+}
+
 func vpH_C16_single_Activity()             { vpC16Single("Activity") }
 func vpH_C16_single_IntransitiveActivity() { vpC16Single("IntransitiveActivity") }
 func vpH_C16_single_Question()             { vpC16Single("Question") }
